@@ -288,30 +288,29 @@ NoOut == [ts |-> <<>>, added |-> <<>>]
 NoV   == [reg |-> FALSE, raised |-> FALSE, stale |-> FALSE]
 IsQuery(act) == act.op \in {"tq", "sq"}
 
-Step(W, act, out) ==
-  CASE act.op = "tq"     -> TQuery(W, act.a, act.k, act.f).W
-    [] act.op = "sq"     -> SQuery(W, act.a, act.k, act.f).W
-    [] act.op = "taddf"  -> TAddF(W, act.a, act.f)
-    [] act.op = "taddc"  -> TAddC(W, act.a, act.f)
-    [] act.op = "saddf"  -> SAddF(W, act.a, act.f)
-    [] act.op = "saddc"  -> SAddC(W, act.a, act.f)
-    [] act.op = "tinv"   -> TInv(W, act.a)
-    [] act.op = "sinv"   -> SInv(W, act.a)
-    [] act.op = "tclone" -> TClone(W, act.a, act.b)
-    [] act.op = "sclone" -> SClone(W, act.a, act.b)
-    [] act.op = "tmut"   -> TSet(W, out.ts[1])
-    [] act.op = "txo"    -> TSet(W, out.ts[1])
-    [] act.op = "sadd"   -> SAdd(W, act.a, act.b)
-    [] act.op = "sdel"   -> SDel(W, act.a, act.b)
-    [] act.op = "sset"   -> SSet(W, act.a, act.p, act.b)
-    [] act.op = "sxo"    -> SXover(W, act.a, act.b, act.p, act.q)
-    [] act.op = "smut"   -> SMut(W, act.a, out.ts, out.added)
-    [] OTHER             -> W
+\* StepV = [W |-> next world, v |-> what the call reports]
+StepV(W, act, out) ==
+  CASE act.op = "tq"     -> TQuery(W, act.a, act.k, act.f)
+    [] act.op = "sq"     -> SQuery(W, act.a, act.k, act.f)
+    [] act.op = "taddf"  -> [W |-> TAddF(W, act.a, act.f), v |-> NoV]
+    [] act.op = "taddc"  -> [W |-> TAddC(W, act.a, act.f), v |-> NoV]
+    [] act.op = "saddf"  -> [W |-> SAddF(W, act.a, act.f), v |-> NoV]
+    [] act.op = "saddc"  -> [W |-> SAddC(W, act.a, act.f), v |-> NoV]
+    [] act.op = "tinv"   -> [W |-> TInv(W, act.a), v |-> NoV]
+    [] act.op = "sinv"   -> [W |-> SInv(W, act.a), v |-> NoV]
+    [] act.op = "tclone" -> [W |-> TClone(W, act.a, act.b), v |-> NoV]
+    [] act.op = "sclone" -> [W |-> SClone(W, act.a, act.b), v |-> NoV]
+    [] act.op = "tmut"   -> [W |-> TSet(W, out.ts[1]), v |-> NoV]
+    [] act.op = "txo"    -> [W |-> TSet(W, out.ts[1]), v |-> NoV]
+    [] act.op = "sadd"   -> [W |-> SAdd(W, act.a, act.b), v |-> NoV]
+    [] act.op = "sdel"   -> [W |-> SDel(W, act.a, act.b), v |-> NoV]
+    [] act.op = "sset"   -> [W |-> SSet(W, act.a, act.p, act.b), v |-> NoV]
+    [] act.op = "sxo"    -> [W |-> SXover(W, act.a, act.b, act.p, act.q), v |-> NoV]
+    [] act.op = "smut"   -> [W |-> SMut(W, act.a, out.ts, out.added), v |-> NoV]
+    [] OTHER             -> [W |-> W, v |-> NoV]
 
-VerdictOf(W, act) ==
-  CASE act.op = "tq" -> TQuery(W, act.a, act.k, act.f).v
-    [] act.op = "sq" -> SQuery(W, act.a, act.k, act.f).v
-    [] OTHER         -> NoV
+Step(W, act, out) == StepV(W, act, out).W
+VerdictOf(W, act) == StepV(W, act, NoOut).v
 
 OutOK(W, act, out) ==
   CASE act.op = "tmut" -> Len(out.ts) = 1 /\ out.ts[1].id = act.a /\ TMutOK(W.t[act.a], out.ts[1])
